@@ -83,6 +83,6 @@ Print Assumptions C17_float_close_partial.
 (* non-vacuity *)
 Example C17_example :
   let s := mkSensor 2 0 (-3) 100 (-1) 1 in
-  s_m s <> 0 /\ (linear_Q s (raw_signed 2 200) == -(1780 # 1))%Q /\
+  s_m s <> 0 /\ (linear_Q s (raw_signed 2 200) == 1780 # 1)%Q /\
   convert_sensor_value_to_raw s (linear_Q s (raw_signed 2 200)) = Ok 200.
-Proof. repeat split; vm_compute; congruence. Qed.
+Proof. split; [discriminate | split; vm_compute; reflexivity]. Qed.
